@@ -1,4 +1,677 @@
-import RaptorModel.Model.Krylov
+import Mathlib.Algebra.Field.Basic
+import Mathlib.Algebra.Order.Field.Rat
+import Mathlib.Order.Defs.LinearOrder
+import RaptorModel.Lemmas.KrylovLemmas
+
+/-!
+# C17 — Krylov solvers report true residual norms; inner products / norms propagate NaN
+
+Exact arithmetic (`K` a commutative ring with a division operation, e.g. a field; an arbitrary
+`SqrtOp K`; an arbitrary decidable `<`).  The operator is any `mv : List K → List K` satisfying
+`LinSys n mv resid b` (length preserving, additive/homogeneous in the `axpy` form,
+`resid x = b − mv x`).
+
+* `cgIters … : List (List K × List K)` — the pairs `(x_k, r_k)` for `k = 0, 1, …` that `cg`
+  goes through (`cgIterates` is the same recursion as `cgLoop`); `cgX … k` is `x_k`.
+* `cg_residual_true` — `r_k = resid x_k` for every iterate (recurrence residual = true residual,
+  also across the explicit recomputation every 8 iterations).
+* `cg_reported_true` — `res[k] = report (sqrt ⟨resid x_k, resid x_k⟩)`.
+* `cg_returns_last`, `cg_res_length` — `o.x = x_{o.iters}`, `res.length = o.iters + 1`.
+* `cg_stops` — `iters ≤ maxIter`; all earlier iterates violate the tolerance; if stopped before the
+  limit the returned iterate meets it.
+* the same for BiCGStab (`bicg_*`), with an arbitrary `norm`.
+* `dotNF_nan_iff`, `sumSqNF_nan_iff`, `dotNF_fin`, `sumSqNF_fin`.
+* `dot_flatten` — global inner product = sum of the local inner products, for every partition.
+
+Remark (G): monotone decrease of the energy norm of the CG error is proved abstractly in
+`Raptor.C10.cg_step_energy` (Lemmas/EnergyLemmas.lean); it is not repeated here.
+-/
+
+
 namespace Raptor.C17
-theorem placeholder : (1 : Nat) = 1 := rfl
+open Raptor Raptor.Krylov
+
+/-! ## B. the invariant `r = resid x` and its preservation by one step -/
+
+section Invariant
+variable {K : Type} [CommRing K] [Div K]
+
+/-- the residual invariant: the carried vector `r` is the true residual of `x` (lengths `n`) -/
+def Inv (resid : List K → List K) (n : Nat) (x r : List K) : Prop :=
+  x.length = n ∧ r.length = n ∧ r = resid x
+
+omit [Div K] in
+theorem Inv.of_resid {n : Nat} {mv resid : List K → List K} {b : List K}
+    (L : LinSys n mv resid b) {x : List K} (hx : x.length = n) : Inv resid n x (resid x) :=
+  ⟨hx, L.length_resid hx, rfl⟩
+
+omit [Div K] in
+/-- the recurrence residual `r − α A p` and the explicitly recomputed residual of the new iterate
+    `x + α p` coincide (so it does not matter at which iterations CG recomputes) -/
+theorem recurrence_eq_recomputed {n : Nat} {mv resid : List K → List K} {b : List K}
+    (L : LinSys n mv resid b) {x r p : List K} (al : K) (hp : p.length = n)
+    (h : Inv resid n x r) :
+    axpy r (mv p) (-al) = resid (axpy x p al) := by
+  rw [h.2.2]; exact L.resid_step al h.1 hp
+
+/-- one CG step (either branch) preserves the invariant -/
+theorem cg_step_inv {n : Nat} {mv resid : List K → List K} {b : List K}
+    (L : LinSys n mv resid b) (it : Nat) {x r p : List K} (rr : K) (hp : p.length = n)
+    (h : Inv resid n x r) :
+    Inv resid n (cgNextX mv x p rr) (cgNextR mv resid it x r p rr) := by
+  have hx' := cgNextX_length mv rr h.1 hp
+  have hr' := cgNextR_eq L it rr h.1 hp h.2.2
+  exact ⟨hx', by rw [hr']; exact L.length_resid hx', hr'⟩
+
+/-- one BiCGStab step preserves the invariant: `x' = x + αp + ωs`, `r' = s − ωAs`,
+    `s = r − αAp`, for whatever `α`, `ω` -/
+theorem bicg_step_inv [DecidableEq K] {n : Nat} {mv resid : List K → List K} {b : List K}
+    (L : LinSys n mv resid b) (rstar : List K) {x r p : List K} (rr : K) (hp : p.length = n)
+    (h : Inv resid n x r) :
+    Inv resid n (bicgNextX mv rstar x r p rr) (bicgNextR mv rstar r p rr) := by
+  have hx' := bicgNextX_length L rstar rr h.1 hp h.2.2
+  have hr' := bicgNextR_eq L rstar rr h.1 hp h.2.2
+  exact ⟨hx', by rw [hr']; exact L.length_resid hx', hr'⟩
+
+end Invariant
+
+/-! ## B/C. conjugate gradients -/
+
+section CG
+variable {K : Type} [CommRing K] [Div K] [SqrtOp K] [LT K] [DecidableLT K] [DecidableEq K]
+
+/-- the scaled tolerance `cg` uses: `tol` if `‖r₀‖ = 0`, else `tol·‖r₀‖` -/
+def cgTol (resid : List K → List K) (tol : K) (x0 : List K) : K :=
+  if SqrtOp.sqrt (dot (resid x0) (resid x0)) = 0 then tol
+  else tol * SqrtOp.sqrt (dot (resid x0) (resid x0))
+
+/-- all iterates `(x_k, r_k)`, `k = 0, 1, …`, of `cg` -/
+def cgIters (mv resid : List K → List K) (tol : K) (maxIter : Nat) (x0 : List K) :
+    List (List K × List K) :=
+  (x0, resid x0) :: cgIterates mv resid (cgTol resid tol x0) maxIter maxIter 0 x0 (resid x0)
+    (resid x0) (dot (resid x0) (resid x0)) (SqrtOp.sqrt (dot (resid x0) (resid x0)))
+
+/-- the `k`-th iterate `x_k` of `cg` (`[]` beyond the last one) -/
+def cgX (mv resid : List K → List K) (tol : K) (maxIter : Nat) (x0 : List K) (k : Nat) : List K :=
+  ((cgIters mv resid tol maxIter x0)[k]?.getD ([], [])).1
+
+theorem cg_eq (mv resid : List K → List K) (tol : K) (maxIter : Nat) (report : K → K)
+    (x0 : List K) :
+    cg mv resid tol maxIter report x0 =
+      cgLoop mv resid (cgTol resid tol x0) maxIter report maxIter 0 x0 (resid x0) (resid x0)
+        (dot (resid x0) (resid x0)) (SqrtOp.sqrt (dot (resid x0) (resid x0)))
+        [report (SqrtOp.sqrt (dot (resid x0) (resid x0)))] := rfl
+
+theorem cgX_of_lt (mv resid : List K → List K) (tol : K) (maxIter : Nat) (x0 : List K) (k : Nat)
+    (hk : k < (cgIters mv resid tol maxIter x0).length) :
+    cgX mv resid tol maxIter x0 k = ((cgIters mv resid tol maxIter x0)[k]).1 := by
+  unfold cgX; rw [List.getElem?_eq_getElem hk]; rfl
+
+theorem cgX_zero (mv resid : List K → List K) (tol : K) (maxIter : Nat) (x0 : List K) :
+    cgX mv resid tol maxIter x0 0 = x0 := rfl
+
+omit [DecidableEq K] in
+/-- **Loop invariant theorem.** From an entry state with `r = resid x` (lengths `n`), the loop
+    appends to the history exactly the reports of the iterates it produces, each of which carries
+    its true residual. -/
+theorem cgLoop_inv {n : Nat} {mv resid : List K → List K} {b : List K}
+    (L : LinSys n mv resid b) (tol : K) (maxIter : Nat) (report : K → K)
+    (fuel it : Nat) (x r p : List K) (rr normr : K) (res : List K)
+    (hx : x.length = n) (hp : p.length = n) (hr : r = resid x) :
+    (cgLoop mv resid tol maxIter report fuel it x r p rr normr res).res =
+        res ++ (cgIterates mv resid tol maxIter fuel it x r p rr normr).map
+          (fun xr => report (SqrtOp.sqrt (dot (resid xr.1) (resid xr.1)))) ∧
+      ∀ xr ∈ cgIterates mv resid tol maxIter fuel it x r p rr normr, xr.2 = resid xr.1 := by
+  have hinv := cgIterates_inv L tol maxIter fuel it x r p rr normr hx hp hr
+  refine ⟨?_, hinv⟩
+  rw [cgLoop_res]
+  congr 1
+  apply List.map_congr_left
+  intro xr hxr
+  simp only [nrm, hinv xr hxr]
+
+/-- **`cg_residual_true`**: the residual vector carried by CG at every iterate is the true residual
+    `b − A x_k` of that iterate. -/
+theorem cg_residual_true {n : Nat} {mv resid : List K → List K} {b : List K}
+    (L : LinSys n mv resid b) (tol : K) (maxIter : Nat) (x0 : List K) (hx0 : x0.length = n) :
+    ∀ xr ∈ cgIters mv resid tol maxIter x0, xr.2 = resid xr.1 := by
+  intro xr hmem
+  rcases List.mem_cons.1 hmem with h | h
+  · rw [h]
+  · exact cgIterates_inv L _ _ _ _ _ _ _ _ _ hx0 (L.length_resid hx0) rfl xr h
+
+/-- history = reports of the norms attached to the iterates (no hypotheses) -/
+theorem cg_res_eq (mv resid : List K → List K) (tol : K) (maxIter : Nat) (report : K → K)
+    (x0 : List K) :
+    (cg mv resid tol maxIter report x0).res =
+      (cgIters mv resid tol maxIter x0).map fun xr => report (nrm xr) := by
+  rw [cg_eq, cgLoop_res]; rfl
+
+theorem cg_iters_length (mv resid : List K → List K) (tol : K) (maxIter : Nat) (report : K → K)
+    (x0 : List K) :
+    (cgIters mv resid tol maxIter x0).length = (cg mv resid tol maxIter report x0).iters + 1 := by
+  rw [cg_eq, cgLoop_iters]; simp [cgIters]
+
+/-- the history has one entry per iterate: `res.length = iters + 1` -/
+theorem cg_res_length (mv resid : List K → List K) (tol : K) (maxIter : Nat) (report : K → K)
+    (x0 : List K) :
+    (cg mv resid tol maxIter report x0).res.length =
+      (cg mv resid tol maxIter report x0).iters + 1 := by
+  rw [cg_res_eq, List.length_map, cg_iters_length mv resid tol maxIter report]
+
+/-- **`cg_reported_true`** (list form) -/
+theorem cg_reported_true_map {n : Nat} {mv resid : List K → List K} {b : List K}
+    (L : LinSys n mv resid b) (tol : K) (maxIter : Nat) (report : K → K) (x0 : List K)
+    (hx0 : x0.length = n) :
+    (cg mv resid tol maxIter report x0).res =
+      (cgIters mv resid tol maxIter x0).map
+        fun xr => report (SqrtOp.sqrt (dot (resid xr.1) (resid xr.1))) := by
+  rw [cg_res_eq]
+  apply List.map_congr_left
+  intro xr hxr
+  simp only [nrm, cg_residual_true L tol maxIter x0 hx0 xr hxr]
+
+/-- **`cg_reported_true`**: the `k`-th reported value is the (reported) true residual norm of the
+    `k`-th iterate. -/
+theorem cg_reported_true {n : Nat} {mv resid : List K → List K} {b : List K}
+    (L : LinSys n mv resid b) (tol : K) (maxIter : Nat) (report : K → K) (x0 : List K)
+    (hx0 : x0.length = n) (k : Nat) (hk : k < (cg mv resid tol maxIter report x0).res.length) :
+    (cg mv resid tol maxIter report x0).res[k] =
+      report (SqrtOp.sqrt (dot (resid (cgX mv resid tol maxIter x0 k))
+        (resid (cgX mv resid tol maxIter x0 k)))) := by
+  have hk' : k < (cgIters mv resid tol maxIter x0).length := by
+    rw [cg_res_eq, List.length_map] at hk; exact hk
+  rw [cgX_of_lt _ _ _ _ _ _ hk']
+  have h := cg_reported_true_map L tol maxIter report x0 hx0
+  rw [List.getElem_of_eq h hk, List.getElem_map]
+
+/-- **`cg_returns_last`**: the returned vector is the iterate the last reported residual belongs
+    to, `o.x = x_{o.iters}`. -/
+theorem cg_returns_last (mv resid : List K → List K) (tol : K) (maxIter : Nat) (report : K → K)
+    (x0 : List K) :
+    (cg mv resid tol maxIter report x0).x =
+      cgX mv resid tol maxIter x0 (cg mv resid tol maxIter report x0).iters := by
+  have h := cgLoop_x mv resid (cgTol resid tol x0) maxIter report maxIter 0 x0 (resid x0)
+    (resid x0) (dot (resid x0) (resid x0)) (SqrtOp.sqrt (dot (resid x0) (resid x0)))
+    [report (SqrtOp.sqrt (dot (resid x0) (resid x0)))]
+  have hi : (cg mv resid tol maxIter report x0).iters =
+      (cgIterates mv resid (cgTol resid tol x0) maxIter maxIter 0 x0 (resid x0)
+        (resid x0) (dot (resid x0) (resid x0)) (SqrtOp.sqrt (dot (resid x0) (resid x0)))).length := by
+    rw [cg_eq, cgLoop_iters]; simp
+  rw [← cg_eq, ← hi] at h
+  unfold cgX
+  have h2 : (cgIters mv resid tol maxIter x0)[(cg mv resid tol maxIter report x0).iters]?.map
+      Prod.fst = some (cg mv resid tol maxIter report x0).x := by
+    rw [← h, ← List.getElem?_map]; rfl
+  cases hq : (cgIters mv resid tol maxIter x0)[(cg mv resid tol maxIter report x0).iters]? with
+  | none => rw [hq] at h2; simp at h2
+  | some q => rw [hq] at h2; simp at h2; simp [h2]
+
+/-- **`cg_stops`**: (1) never more than `maxIter` iterations; (2) every iterate before the
+    returned one violates the (scaled) tolerance — the solver stops at the FIRST iterate meeting
+    it; (3) if it stops before the limit, the returned iterate meets the tolerance.
+    The norms are the true residual norms. -/
+theorem cg_stops {n : Nat} {mv resid : List K → List K} {b : List K}
+    (L : LinSys n mv resid b) (tol : K) (maxIter : Nat) (report : K → K) (x0 : List K)
+    (hx0 : x0.length = n) :
+    (cg mv resid tol maxIter report x0).iters ≤ maxIter ∧
+    (∀ k, k < (cg mv resid tol maxIter report x0).iters →
+      cgTol resid tol x0 < SqrtOp.sqrt (dot (resid (cgX mv resid tol maxIter x0 k))
+        (resid (cgX mv resid tol maxIter x0 k)))) ∧
+    ((cg mv resid tol maxIter report x0).iters < maxIter →
+      ¬ cgTol resid tol x0 < SqrtOp.sqrt (dot (resid (cg mv resid tol maxIter report x0).x)
+        (resid (cg mv resid tol maxIter report x0).x))) := by
+  have hlen := cg_iters_length mv resid tol maxIter report x0
+  have hi : (cg mv resid tol maxIter report x0).iters =
+      (cgIterates mv resid (cgTol resid tol x0) maxIter maxIter 0 x0 (resid x0)
+        (resid x0) (dot (resid x0) (resid x0)) (SqrtOp.sqrt (dot (resid x0) (resid x0)))).length := by
+    rw [cg_eq, cgLoop_iters]; simp
+  have hnrm : ∀ k (hk : k < (cgIters mv resid tol maxIter x0).length),
+      ((SqrtOp.sqrt (dot (resid x0) (resid x0))) ::
+        (cgIterates mv resid (cgTol resid tol x0) maxIter maxIter 0 x0 (resid x0)
+        (resid x0) (dot (resid x0) (resid x0))
+        (SqrtOp.sqrt (dot (resid x0) (resid x0)))).map nrm)[k]? =
+      some (SqrtOp.sqrt (dot (resid (cgX mv resid tol maxIter x0 k))
+        (resid (cgX mv resid tol maxIter x0 k)))) := by
+    intro k hk
+    have e : ((SqrtOp.sqrt (dot (resid x0) (resid x0))) ::
+        (cgIterates mv resid (cgTol resid tol x0) maxIter maxIter 0 x0 (resid x0)
+        (resid x0) (dot (resid x0) (resid x0))
+        (SqrtOp.sqrt (dot (resid x0) (resid x0)))).map nrm) =
+        (cgIters mv resid tol maxIter x0).map nrm := rfl
+    rw [e, List.getElem?_map, List.getElem?_eq_getElem hk, cgX_of_lt _ _ _ _ _ _ hk]
+    simp only [Option.map_some, nrm]
+    rw [cg_residual_true L tol maxIter x0 hx0 _ (List.getElem_mem hk)]
+  refine ⟨?_, ?_, ?_⟩
+  · rw [cg_eq]; exact cgLoop_iters_le _ _ _ _ _ _ _ _ _ _ _ _ _ (Nat.zero_le _)
+  · intro k hk
+    exact cgIterates_before mv resid (cgTol resid tol x0) maxIter maxIter 0 x0 (resid x0)
+      (resid x0) _ _ k _ (by omega) (hnrm k (by omega))
+  · intro hlt
+    rw [cg_returns_last]
+    refine cgIterates_last mv resid (cgTol resid tol x0) maxIter maxIter 0 x0 (resid x0)
+      (resid x0) (dot (resid x0) (resid x0)) (SqrtOp.sqrt (dot (resid x0) (resid x0))) _
+      (by omega) (by omega) ?_
+    rw [← hi]
+    exact hnrm _ (by omega)
+
+/-! ### the iterates are what the solver returns under a smaller iteration limit
+
+This ties the trace `cgIters`/`cgX` to the solver itself: `x_k` is the vector `cg` returns when its
+iteration limit is `k` (same tolerance), and the history under a smaller limit is a prefix. -/
+
+theorem cgIters_take (mv resid : List K → List K) (tol : K) (m M : Nat) (hm : m ≤ M)
+    (x0 : List K) :
+    cgIters mv resid tol m x0 = (cgIters mv resid tol M x0).take (m + 1) := by
+  unfold cgIters
+  rw [List.take_succ_cons,
+    cgIterates_fuel mv resid _ m m M 0 _ _ _ _ _ (by omega) (by omega),
+    cgIterates_take mv resid _ m M hm M 0]
+  simp
+
+theorem cg_prefix_res (mv resid : List K → List K) (tol : K) (m M : Nat) (hm : m ≤ M)
+    (report : K → K) (x0 : List K) :
+    (cg mv resid tol m report x0).res = (cg mv resid tol M report x0).res.take (m + 1) := by
+  rw [cg_res_eq, cg_res_eq, cgIters_take mv resid tol m M hm, List.map_take]
+
+theorem cg_prefix_iters (mv resid : List K → List K) (tol : K) (m M : Nat) (hm : m ≤ M)
+    (report : K → K) (x0 : List K) :
+    (cg mv resid tol m report x0).iters = min m (cg mv resid tol M report x0).iters := by
+  have h1 := cg_iters_length mv resid tol m report x0
+  have h2 := cg_iters_length mv resid tol M report x0
+  rw [cgIters_take mv resid tol m M hm, List.length_take, h2] at h1
+  omega
+
+theorem cgX_prefix (mv resid : List K → List K) (tol : K) (m M : Nat) (hm : m ≤ M)
+    (x0 : List K) (k : Nat) (hk : k ≤ m) :
+    cgX mv resid tol m x0 k = cgX mv resid tol M x0 k := by
+  unfold cgX
+  rw [cgIters_take mv resid tol m M hm, List.getElem?_take, if_pos (by omega)]
+
+/-- `x_k` is the vector returned by `cg` run with iteration limit `k` -/
+theorem cgX_eq_cg (mv resid : List K → List K) (tol : K) (M : Nat) (report : K → K)
+    (x0 : List K) (k : Nat) (hk : k ≤ (cg mv resid tol M report x0).iters) :
+    cgX mv resid tol M x0 k = (cg mv resid tol k report x0).x := by
+  have hM : (cg mv resid tol M report x0).iters ≤ M := by
+    rw [cg_eq]; exact cgLoop_iters_le _ _ _ _ _ _ _ _ _ _ _ _ _ (Nat.zero_le _)
+  have hkM : k ≤ M := by omega
+  rw [cg_returns_last, cg_prefix_iters mv resid tol k M hkM, Nat.min_eq_left hk,
+    cgX_prefix mv resid tol k M hkM x0 k (Nat.le_refl _)]
+
+end CG
+
+/-- `cg_stops` (3) over a linear order: the final true residual norm is `≤` the scaled tolerance.
+    The order and the ring structure need not be compatible. -/
+theorem cg_stops_le {K : Type} [CommRing K] [Div K] [SqrtOp K] [LinearOrder K]
+    {n : Nat} {mv resid : List K → List K} {b : List K}
+    (L : LinSys n mv resid b) (tol : K) (maxIter : Nat) (report : K → K) (x0 : List K)
+    (hx0 : x0.length = n) (hlt : (cg mv resid tol maxIter report x0).iters < maxIter) :
+    SqrtOp.sqrt (dot (resid (cg mv resid tol maxIter report x0).x)
+        (resid (cg mv resid tol maxIter report x0).x)) ≤ cgTol resid tol x0 :=
+  not_lt.1 ((cg_stops L tol maxIter report x0 hx0).2.2 hlt)
+
+/-! ## D. BiCGStab -/
+
+section BiCG
+variable {K : Type} [CommRing K] [Div K] [LT K] [DecidableLT K] [DecidableEq K]
+
+def bicgTol (resid : List K → List K) (norm : List K → K) (tol : K) (x0 : List K) : K :=
+  if norm (resid x0) = 0 then tol else tol * norm (resid x0)
+
+/-- all iterates `(x_k, r_k)`, `k = 0, 1, …`, of `bicgstab` -/
+def bicgIters (mv resid : List K → List K) (norm : List K → K) (tol : K) (maxIter : Nat)
+    (x0 : List K) : List (List K × List K) :=
+  (x0, resid x0) :: bicgIterates mv norm (resid x0) (bicgTol resid norm tol x0) maxIter maxIter 0
+    x0 (resid x0) (resid x0) (dot (resid x0) (resid x0)) (norm (resid x0))
+
+def bicgX (mv resid : List K → List K) (norm : List K → K) (tol : K) (maxIter : Nat)
+    (x0 : List K) (k : Nat) : List K :=
+  ((bicgIters mv resid norm tol maxIter x0)[k]?.getD ([], [])).1
+
+theorem bicgstab_eq (mv resid : List K → List K) (norm : List K → K) (tol : K) (maxIter : Nat)
+    (x0 : List K) :
+    bicgstab mv resid norm tol maxIter x0 =
+      bicgLoop mv norm (resid x0) (bicgTol resid norm tol x0) maxIter maxIter 0 x0 (resid x0)
+        (resid x0) (dot (resid x0) (resid x0)) (norm (resid x0)) [norm (resid x0)] := rfl
+
+theorem bicgX_of_lt (mv resid : List K → List K) (norm : List K → K) (tol : K) (maxIter : Nat)
+    (x0 : List K) (k : Nat) (hk : k < (bicgIters mv resid norm tol maxIter x0).length) :
+    bicgX mv resid norm tol maxIter x0 k = ((bicgIters mv resid norm tol maxIter x0)[k]).1 := by
+  unfold bicgX; rw [List.getElem?_eq_getElem hk]; rfl
+
+/-- loop invariant theorem for `bicgLoop` -/
+theorem bicgLoop_inv {n : Nat} {mv resid : List K → List K} {b : List K}
+    (L : LinSys n mv resid b) (norm : List K → K) (rstar : List K) (tol : K) (maxIter : Nat)
+    (fuel it : Nat) (x r p : List K) (rr normr : K) (res : List K)
+    (hx : x.length = n) (hp : p.length = n) (hr : r = resid x) :
+    (bicgLoop mv norm rstar tol maxIter fuel it x r p rr normr res).res =
+        res ++ (bicgIterates mv norm rstar tol maxIter fuel it x r p rr normr).map
+          (fun xr => norm (resid xr.1)) ∧
+      ∀ xr ∈ bicgIterates mv norm rstar tol maxIter fuel it x r p rr normr,
+        xr.2 = resid xr.1 := by
+  have hinv := bicgIterates_inv L norm rstar tol maxIter fuel it x r p rr normr hx hp hr
+  refine ⟨?_, hinv⟩
+  rw [bicgLoop_res]
+  congr 1
+  apply List.map_congr_left
+  intro xr hxr
+  simp only [hinv xr hxr]
+
+/-- **`bicg_residual_true`**: BiCGStab's residual vector is the true residual of every iterate
+    (whatever `α`, `ω` are, including the guarded `ω = 0` branch). -/
+theorem bicg_residual_true {n : Nat} {mv resid : List K → List K} {b : List K}
+    (L : LinSys n mv resid b) (norm : List K → K) (tol : K) (maxIter : Nat) (x0 : List K)
+    (hx0 : x0.length = n) :
+    ∀ xr ∈ bicgIters mv resid norm tol maxIter x0, xr.2 = resid xr.1 := by
+  intro xr hmem
+  rcases List.mem_cons.1 hmem with h | h
+  · rw [h]
+  · exact bicgIterates_inv L _ _ _ _ _ _ _ _ _ _ _ hx0 (L.length_resid hx0) rfl xr h
+
+theorem bicg_res_eq (mv resid : List K → List K) (norm : List K → K) (tol : K) (maxIter : Nat)
+    (x0 : List K) :
+    (bicgstab mv resid norm tol maxIter x0).res =
+      (bicgIters mv resid norm tol maxIter x0).map fun xr => norm xr.2 := by
+  rw [bicgstab_eq, bicgLoop_res]; rfl
+
+theorem bicg_iters_length (mv resid : List K → List K) (norm : List K → K) (tol : K)
+    (maxIter : Nat) (x0 : List K) :
+    (bicgIters mv resid norm tol maxIter x0).length =
+      (bicgstab mv resid norm tol maxIter x0).iters + 1 := by
+  rw [bicgstab_eq, bicgLoop_iters]; simp [bicgIters]
+
+theorem bicg_res_length (mv resid : List K → List K) (norm : List K → K) (tol : K)
+    (maxIter : Nat) (x0 : List K) :
+    (bicgstab mv resid norm tol maxIter x0).res.length =
+      (bicgstab mv resid norm tol maxIter x0).iters + 1 := by
+  rw [bicg_res_eq, List.length_map, bicg_iters_length]
+
+theorem bicg_reported_true_map {n : Nat} {mv resid : List K → List K} {b : List K}
+    (L : LinSys n mv resid b) (norm : List K → K) (tol : K) (maxIter : Nat) (x0 : List K)
+    (hx0 : x0.length = n) :
+    (bicgstab mv resid norm tol maxIter x0).res =
+      (bicgIters mv resid norm tol maxIter x0).map fun xr => norm (resid xr.1) := by
+  rw [bicg_res_eq]
+  apply List.map_congr_left
+  intro xr hxr
+  simp only [bicg_residual_true L norm tol maxIter x0 hx0 xr hxr]
+
+/-- **`bicg_reported_true`** -/
+theorem bicg_reported_true {n : Nat} {mv resid : List K → List K} {b : List K}
+    (L : LinSys n mv resid b) (norm : List K → K) (tol : K) (maxIter : Nat) (x0 : List K)
+    (hx0 : x0.length = n) (k : Nat)
+    (hk : k < (bicgstab mv resid norm tol maxIter x0).res.length) :
+    (bicgstab mv resid norm tol maxIter x0).res[k] =
+      norm (resid (bicgX mv resid norm tol maxIter x0 k)) := by
+  have hk' : k < (bicgIters mv resid norm tol maxIter x0).length := by
+    rw [bicg_res_eq, List.length_map] at hk; exact hk
+  rw [bicgX_of_lt _ _ _ _ _ _ _ hk']
+  have h := bicg_reported_true_map L norm tol maxIter x0 hx0
+  rw [List.getElem_of_eq h hk, List.getElem_map]
+
+/-- **`bicg_returns_last`** -/
+theorem bicg_returns_last (mv resid : List K → List K) (norm : List K → K) (tol : K)
+    (maxIter : Nat) (x0 : List K) :
+    (bicgstab mv resid norm tol maxIter x0).x =
+      bicgX mv resid norm tol maxIter x0 (bicgstab mv resid norm tol maxIter x0).iters := by
+  have h := bicgLoop_x mv norm (resid x0) (bicgTol resid norm tol x0) maxIter maxIter 0 x0
+    (resid x0) (resid x0) (dot (resid x0) (resid x0)) (norm (resid x0)) [norm (resid x0)]
+  have hi : (bicgstab mv resid norm tol maxIter x0).iters =
+      (bicgIterates mv norm (resid x0) (bicgTol resid norm tol x0) maxIter maxIter 0 x0
+        (resid x0) (resid x0) (dot (resid x0) (resid x0)) (norm (resid x0))).length := by
+    rw [bicgstab_eq, bicgLoop_iters]; simp
+  rw [← bicgstab_eq, ← hi] at h
+  unfold bicgX
+  have h2 : (bicgIters mv resid norm tol maxIter x0)[
+      (bicgstab mv resid norm tol maxIter x0).iters]?.map
+      Prod.fst = some (bicgstab mv resid norm tol maxIter x0).x := by
+    rw [← h, ← List.getElem?_map]; rfl
+  cases hq : (bicgIters mv resid norm tol maxIter x0)[
+      (bicgstab mv resid norm tol maxIter x0).iters]? with
+  | none => rw [hq] at h2; simp at h2
+  | some q => rw [hq] at h2; simp at h2; simp [h2]
+
+/-- **`bicg_stops`** -/
+theorem bicg_stops {n : Nat} {mv resid : List K → List K} {b : List K}
+    (L : LinSys n mv resid b) (norm : List K → K) (tol : K) (maxIter : Nat) (x0 : List K)
+    (hx0 : x0.length = n) :
+    (bicgstab mv resid norm tol maxIter x0).iters ≤ maxIter ∧
+    (∀ k, k < (bicgstab mv resid norm tol maxIter x0).iters →
+      bicgTol resid norm tol x0 < norm (resid (bicgX mv resid norm tol maxIter x0 k))) ∧
+    ((bicgstab mv resid norm tol maxIter x0).iters < maxIter →
+      ¬ bicgTol resid norm tol x0 < norm (resid (bicgstab mv resid norm tol maxIter x0).x)) := by
+  have hlen := bicg_iters_length mv resid norm tol maxIter x0
+  have hi : (bicgstab mv resid norm tol maxIter x0).iters =
+      (bicgIterates mv norm (resid x0) (bicgTol resid norm tol x0) maxIter maxIter 0 x0
+        (resid x0) (resid x0) (dot (resid x0) (resid x0)) (norm (resid x0))).length := by
+    rw [bicgstab_eq, bicgLoop_iters]; simp
+  have hnrm : ∀ k (hk : k < (bicgIters mv resid norm tol maxIter x0).length),
+      (norm (resid x0) ::
+        (bicgIterates mv norm (resid x0) (bicgTol resid norm tol x0) maxIter maxIter 0 x0
+        (resid x0) (resid x0) (dot (resid x0) (resid x0)) (norm (resid x0))).map
+          fun xr => norm xr.2)[k]? =
+      some (norm (resid (bicgX mv resid norm tol maxIter x0 k))) := by
+    intro k hk
+    have e : (norm (resid x0) ::
+        (bicgIterates mv norm (resid x0) (bicgTol resid norm tol x0) maxIter maxIter 0 x0
+        (resid x0) (resid x0) (dot (resid x0) (resid x0)) (norm (resid x0))).map
+          fun xr => norm xr.2) =
+        (bicgIters mv resid norm tol maxIter x0).map fun xr => norm xr.2 := rfl
+    rw [e, List.getElem?_map, List.getElem?_eq_getElem hk, bicgX_of_lt _ _ _ _ _ _ _ hk]
+    simp only [Option.map_some]
+    rw [bicg_residual_true L norm tol maxIter x0 hx0 _ (List.getElem_mem hk)]
+  refine ⟨?_, ?_, ?_⟩
+  · rw [bicgstab_eq]; exact bicgLoop_iters_le _ _ _ _ _ _ _ _ _ _ _ _ _ (Nat.zero_le _)
+  · intro k hk
+    exact bicgIterates_before mv norm (resid x0) (bicgTol resid norm tol x0) maxIter maxIter 0 x0
+      (resid x0) (resid x0) (dot (resid x0) (resid x0)) (norm (resid x0)) k _ (by omega)
+      (hnrm k (by omega))
+  · intro hlt
+    rw [bicg_returns_last]
+    refine bicgIterates_last mv norm (resid x0) (bicgTol resid norm tol x0) maxIter maxIter 0 x0
+      (resid x0) (resid x0) (dot (resid x0) (resid x0)) (norm (resid x0)) _
+      (by omega) (by omega) ?_
+    rw [← hi]
+    exact hnrm _ (by omega)
+
+end BiCG
+
+theorem bicg_stops_le {K : Type} [CommRing K] [Div K] [LinearOrder K]
+    {n : Nat} {mv resid : List K → List K} {b : List K}
+    (L : LinSys n mv resid b) (norm : List K → K) (tol : K) (maxIter : Nat) (x0 : List K)
+    (hx0 : x0.length = n) (hlt : (bicgstab mv resid norm tol maxIter x0).iters < maxIter) :
+    norm (resid (bicgstab mv resid norm tol maxIter x0).x) ≤ bicgTol resid norm tol x0 :=
+  not_lt.1 ((bicg_stops L norm tol maxIter x0 hx0).2.2 hlt)
+
+/-! ## E. NaN propagation -/
+
+section NaN
+variable {K : Type}
+
+/-- **`dotNF_nan_iff`**: the inner product is NaN exactly when one of the entries it multiplies
+    (positions below both lengths) is NaN. -/
+theorem dotNF_nan_iff [Add K] [Mul K] [Zero K] (u v : List (NF K)) :
+    dotNF u v = .nan ↔
+      ∃ i, ∃ h : i < min u.length v.length,
+        u[i]'(by omega) = .nan ∨ v[i]'(by omega) = .nan := by
+  rw [dotNF_nan_iff_mem]
+  constructor
+  · rintro ⟨q, hq, h⟩
+    obtain ⟨i, hi, rfl⟩ := List.mem_iff_getElem.1 hq
+    refine ⟨i, by simpa [List.length_zip] using hi, ?_⟩
+    simpa [List.getElem_zip] using h
+  · rintro ⟨i, hi, h⟩
+    refine ⟨(u[i]'(by omega), v[i]'(by omega)), ?_, h⟩
+    rw [List.mem_iff_getElem]
+    exact ⟨i, by simp only [List.length_zip]; exact hi, by simp⟩
+
+/-- **`sumSqNF_nan_iff`**: the sum of squares (hence the 2-norm) is NaN exactly when an entry is,
+    whatever the predicate `small` allows to skip. -/
+theorem sumSqNF_nan_iff [Add K] [Mul K] [Zero K] (small : K → Bool) (v : List (NF K)) :
+    sumSqNF small v = .nan ↔ .nan ∈ v := by
+  -- (the `match` in the model and the one in the lemma are different auxiliary matchers,
+  --  equal by unfolding: go through `have … :=` instead of `rw`)
+  have h : sumSqNF small v = .nan ↔ (NF.fin 0 : NF K) = .nan ∨ .nan ∈ v :=
+    sumSqNF_foldl_nan_iff small v (.fin 0)
+  simpa using h
+
+/-- **`dotNF_fin`**: on finite entries `dotNF` is the ordinary `dot` -/
+theorem dotNF_fin [Add K] [Mul K] [Zero K] (u v : List K) :
+    dotNF (u.map NF.fin) (v.map NF.fin) = .fin (dot u v) := by
+  unfold dotNF dot
+  rw [← dotNF_foldl_fin, List.zip_map]
+  rfl
+
+/-- the finite value of an entry (`0` for NaN) -/
+def NF.val [Zero K] : NF K → K
+  | .fin k => k
+  | .nan => 0
+
+theorem map_fin_val [Zero K] (u : List (NF K)) (h : NF.nan ∉ u) :
+    (u.map NF.val).map NF.fin = u := by
+  induction u with
+  | nil => rfl
+  | cons a u ih =>
+    simp only [List.mem_cons, not_or] at h
+    rw [List.map_cons, List.map_cons, ih h.2]
+    cases a with
+    | fin k => rfl
+    | nan => exact absurd rfl h.1
+
+/-- `dotNF_fin` in the "no entry is NaN" form -/
+theorem dotNF_fin_of_not_mem [Add K] [Mul K] [Zero K] (u v : List (NF K))
+    (hu : NF.nan ∉ u) (hv : NF.nan ∉ v) :
+    dotNF u v = .fin (dot (u.map NF.val) (v.map NF.val)) := by
+  rw [← dotNF_fin, map_fin_val u hu, map_fin_val v hv]
+
+theorem foldl_zip_self [Add K] [Mul K] (w : List K) (s : K) :
+    (w.zip w).foldl (fun s p => s + p.1 * p.2) s = (w.map fun k => k * k).foldl (· + ·) s := by
+  induction w generalizing s with
+  | nil => rfl
+  | cons a w ih => simp only [List.zip_cons_cons, List.foldl_cons, List.map_cons, ih]
+
+/-- **`sumSqNF_fin`**: on finite entries the sum of squares is `⟨w, w⟩` for `w` the entries that
+    are not skipped as small -/
+theorem sumSqNF_fin [Add K] [Mul K] [Zero K] (small : K → Bool) (v : List K) :
+    sumSqNF small (v.map NF.fin) =
+      .fin (dot (v.filter fun k => !small k) (v.filter fun k => !small k)) := by
+  have h : sumSqNF small (v.map NF.fin) =
+      .fin (((v.filter fun k => !small k).map fun k => k * k).foldl (· + ·) 0) :=
+    sumSqNF_foldl_fin small v 0
+  rw [h]; unfold dot; rw [foldl_zip_self]
+
+theorem sumSqNF_fin_of_not_mem [Add K] [Mul K] [Zero K] (small : K → Bool) (v : List (NF K))
+    (hv : NF.nan ∉ v) :
+    sumSqNF small v =
+      .fin (dot ((v.map NF.val).filter fun k => !small k)
+        ((v.map NF.val).filter fun k => !small k)) := by
+  rw [← sumSqNF_fin, map_fin_val v hv]
+
+/-- with nothing skipped the sum of squares is `dotNF v v` -/
+theorem sumSqNF_eq_dotNF [Add K] [Mul K] [Zero K] (v : List K) :
+    sumSqNF (fun _ => false) (v.map NF.fin) = dotNF (v.map NF.fin) (v.map NF.fin) := by
+  rw [sumSqNF_fin, dotNF_fin]; simp
+
+end NaN
+
+/-! ## F. distributed = sequential for the building blocks -/
+
+section Blocks
+variable {K : Type}
+
+/-- **global inner product = sum of the local inner products**, for every partition into blocks
+    (rank-local parts concatenated in rank order) with matching block lengths. -/
+theorem dot_flatten [NonUnitalNonAssocSemiring K] (us vs : List (List K))
+    (h : List.Forall₂ (fun u v => u.length = v.length) us vs) :
+    dot us.flatten vs.flatten = (List.zipWith dot us vs).sum := by
+  induction h with
+  | nil => simp
+  | cons hab _ ih =>
+    rw [List.flatten_cons, List.flatten_cons, dot_append _ _ _ _ hab, ih,
+      List.zipWith_cons_cons, List.sum_cons]
+
+/-- the local `axpy`s concatenate to the global `axpy` -/
+theorem axpy_flatten [Add K] [Mul K] (ys xs : List (List K)) (a : K)
+    (h : List.Forall₂ (fun u v => u.length = v.length) ys xs) :
+    axpy ys.flatten xs.flatten a = (List.zipWith (fun y x => axpy y x a) ys xs).flatten := by
+  induction h with
+  | nil => simp
+  | cons hab _ ih =>
+    rw [List.flatten_cons, List.flatten_cons, axpy_append _ _ _ _ _ hab, ih,
+      List.zipWith_cons_cons, List.flatten_cons]
+
+theorem scale_flatten [Mul K] (ys : List (List K)) (a : K) :
+    scale ys.flatten a = (ys.map fun y => scale y a).flatten := by
+  simp [scale, List.map_flatten]
+
+/-- the global sum of squares `⟨v,v⟩` is the sum of the local ones -/
+theorem dot_self_flatten [NonUnitalNonAssocSemiring K] (vs : List (List K)) :
+    dot vs.flatten vs.flatten = (vs.map fun v => dot v v).sum := by
+  rw [dot_flatten vs vs (by induction vs with
+    | nil => exact .nil
+    | cons a l ih => exact .cons rfl ih)]
+  congr 1
+  induction vs with
+  | nil => rfl
+  | cons a l ih => rw [List.zipWith_cons_cons, List.map_cons, ih]
+
+end Blocks
+
+/-! ## Examples: the hypotheses are satisfiable; concrete runs -/
+
+section Examples
+
+/-- any function may serve as `sqrt` in the theorems; the identity makes `Rat` runs exact -/
+local instance sqrtIdRat : SqrtOp Rat := ⟨id⟩
+
+/-- SPD 2×2 system `A = [[4,1],[1,3]]`, `b = [1,2]`, solution `[1/11, 7/11]` -/
+def A2 : List (List Rat) := [[4, 1], [1, 3]]
+def b2 : List Rat := [1, 2]
+def resid2 (x : List Rat) : List Rat := axpy b2 (matMv A2 x) (-1)
+
+/-- `hlen`, `hadd`, `hres`, `b.length = n` hold for the concrete system -/
+example : LinSys 2 (matMv A2) resid2 b2 := matMv_linSys A2 b2 rfl rfl
+
+-- CG converges in two steps (exact arithmetic); history has `iters + 1` entries
+example : (cg (matMv A2) resid2 0 10 id [0, 0]).x = [1/11, 7/11] := by decide +kernel
+example : (cg (matMv A2) resid2 0 10 id [0, 0]).iters = 2 := by decide +kernel
+example : (cg (matMv A2) resid2 0 10 id [0, 0]).res = [5, 5/16, 0] := by decide +kernel
+-- the reported values are the true `⟨b − A x_k, b − A x_k⟩` (`sqrt = id`)
+example : (cgIters (matMv A2) resid2 0 10 [0, 0]).map (fun xr => dot (resid2 xr.1) (resid2 xr.1))
+    = [5, 5/16, 0] := by decide +kernel
+-- tolerance 1/10 (scaled: 1/10 · 5 = 1/2): stops at the first iterate with norm ≤ 1/2
+example : (cg (matMv A2) resid2 (1/10) 10 id [0, 0]).iters = 1 := by decide +kernel
+example : (cg (matMv A2) resid2 (1/10) 10 id [0, 0]).res = [5, 5/16] := by decide +kernel
+-- iteration limit 1
+example : (cg (matMv A2) resid2 0 1 id [0, 0]).iters = 1 := by decide +kernel
+-- BiCGStab with `norm v = ⟨v,v⟩`
+example : (bicgstab (matMv A2) resid2 (fun v => dot v v) 0 10 [0, 0]).x = [1/11, 7/11] := by
+  decide +kernel
+example : (bicgstab (matMv A2) resid2 (fun v => dot v v) 0 10 [0, 0]).res = [5, 1/32, 0] := by
+  decide +kernel
+
+-- the theorems instantiate on the concrete system
+example (k : Nat) (hk : k < (cg (matMv A2) resid2 0 10 id [0, 0]).res.length) :
+    (cg (matMv A2) resid2 0 10 id [0, 0]).res[k] =
+      id (SqrtOp.sqrt (dot (resid2 (cgX (matMv A2) resid2 0 10 [0, 0] k))
+        (resid2 (cgX (matMv A2) resid2 0 10 [0, 0] k)))) :=
+  cg_reported_true (matMv_linSys A2 b2 rfl rfl) 0 10 id [0, 0] rfl k hk
+
+example (k : Nat)
+    (hk : k < (bicgstab (matMv A2) resid2 (fun v => dot v v) 0 10 [0, 0]).res.length) :
+    (bicgstab (matMv A2) resid2 (fun v => dot v v) 0 10 [0, 0]).res[k] =
+      (fun v => dot v v) (resid2 (bicgX (matMv A2) resid2 (fun v => dot v v) 0 10 [0, 0] k)) :=
+  bicg_reported_true (matMv_linSys A2 b2 rfl rfl) _ 0 10 [0, 0] rfl k hk
+
+-- NaN propagation, concretely
+example : dotNF [NF.fin (1 : Int), .nan] [.fin 2, .fin 3] = .nan := by decide
+example : dotNF [NF.fin (1 : Int), .fin 5, .nan] [.fin 2, .fin 3] = .fin 17 := by decide
+example : sumSqNF (fun k : Int => k == 0) [.fin 0, .nan, .fin 2] = .nan := by decide
+example : sumSqNF (fun k : Int => k == 0) [.fin 0, .fin 3, .fin 4] = .fin 25 := by decide
+-- block inner product
+example : dot ([[1, 2], [], [3]] : List (List Int)).flatten [[4, 5], [], [6]].flatten =
+    (List.zipWith dot [[1, 2], [], [3]] [[4, 5], [], [6]]).sum := by decide
+
+end Examples
+
 end Raptor.C17
